@@ -12,5 +12,5 @@ Full == [asset : {0, 1}, out1 : {0, 1, 3}, out2 : {0, 1}, fee : {0}, null : {1, 
 Base == [asset |-> 0, out1 |-> 1, out2 |-> 0, fee |-> 0, null |-> 1, exit1 |-> 1, exit2 |-> 0, block |-> 1, number |-> 7]
 Fields == {"asset", "out1", "out2", "null", "exit1", "exit2", "block"}
 Diff(c) == Cardinality({f \in Fields : c[f] # Base[f]})
-MCLeafDom == IF Dom = "near" THEN {c \in Full : Diff(c) <= 2} ELSE Full
+MCLeafDom == IF Dom = "near" THEN {c \in Full : Diff(c) <= 2} ELSE IF Dom = "near1" THEN {c \in Full : Diff(c) <= 1} ELSE Full
 =============================================================================
